@@ -67,13 +67,16 @@ class WalkUnit(ApiUnit):
     target = T_MULTIWALK
     timeout_ms = 20000
 
-    def __init__(self, n, perm, bulk=None, prop="C01"):
+    def __init__(self, n, perm, bulk=None, prop="C01", phase="prologue", active=()):
         self.n, self.perm, self.bulk = n, tuple(perm), bulk
+        self.phase, self.active = phase, tuple(active)
         self.props = (prop,)
         self.prop = prop
         self.functions = WALK_FUNCS + (BULK_FUNCS if bulk else ())
-        self.name = "Client.multiwalk[roots=%d,order=%s,%s]" % (n, "".join(map(str, perm)),
-                                                                "GETBULK(max-repetitions=%d)" % bulk if bulk else "GETNEXT")
+        what = ("first request, invariant established" if phase == "prologue"
+                else "loop step from any invariant state, active roots %s, and exit" % (list(active),))
+        self.name = "Client.multiwalk[roots=%d,order=%s,%s,%s]" % (n, "".join(map(str, perm)),
+                                                                   "GETBULK(max-repetitions=%d)" % bulk if bulk else "GETNEXT", what)
         self.label = ("proved-shape-bounded(%d roots in listing order %s%s; database, OIDs, values, number of "
                       "iterations unbounded)" % (n, perm, ", %d repetitions, every cut" % bulk if bulk else ""))
 
@@ -91,7 +94,8 @@ class WalkUnit(ApiUnit):
         self.responses = []       # ghost: (request oids, cells, cut) per request
         self.in_loop = False
         interp.on_yield = self.on_yield
-        interp.loop_clauses[(T_MULTIWALK, 0)] = LoopClause(self.havoc, self.invariant, self.variant)
+        interp.loop_clauses[(T_MULTIWALK, 0)] = LoopClause(self.havoc, self.invariant, self.variant,
+                                                           mode="establish" if self.phase == "prologue" else "step")
 
     def respond(self, interp, pdu, n):
         """The agent's answer to a GETNEXT / GETBULK request (list of VarBind)."""
@@ -164,19 +168,19 @@ class WalkUnit(ApiUnit):
             ks = [("D1", self.k_d1(r))]
         return ks
 
+    # Only the obligations that the recorded defects actually break carry their patterns: the
+    # defects LOSE instances (a subtree is dropped), they never deliver a wrong, foreign or repeated
+    # instance and never raise.  Every other obligation is checked whole, so a change that misbehaves
+    # differently in the same situations is still reported.
+    LOSS_OBLIGATIONS = ("finished-root:every-target-was-delivered", "every-instance-strictly-below-a-root-was-delivered",
+                        "active-root:every-target-up-to-the-last-oid-was-delivered")
+
     def kcheck(self, ctx, name, cond):
-        """check with the open findings' patterns of the most recent response as K"""
-        ks = self.known_now()
-        if not ks:
+        """check; the loss obligations carry the open findings' patterns of the most recent response as K"""
+        if any(name.endswith(x) for x in self.LOSS_OBLIGATIONS):
+            ctx.check(name, cond, known=self.known_now())
+        else:
             ctx.check(name, cond)
-            return
-        ks = [(fid, k) for fid, k in ks if fid in ctx.open_findings and k is not False]
-        if not ks:
-            ctx.check(name, cond)
-            return
-        # one obligation per finding pattern would double-count; use the disjunction, report the first that applies
-        kall = Or(*[k for _, k in ks])
-        ctx.check(name, cond, known=kall, finding=ks[0][0] if len(ks) == 1 else "+".join(f for f, _ in ks))
 
     # ------------------------------------------------------------------ ghost: what was delivered
     def in_roots(self, o):
@@ -196,7 +200,7 @@ class WalkUnit(ApiUnit):
         self.kcheck(ctx, base + "is-an-instance-of-the-agent-with-its-value",
                     And(lift_bool(self.agent.indb(o)), interp.eq(value[1], SXVal(self.agent.val(o)))))
         self.kcheck(ctx, base + "lies-below-a-requested-root", lift_bool(self.in_roots(o)))
-        if self.n == 1:
+        if self.n == 1 and self.prop == "C01":
             y = z3.Const("y", OID)
             self.kcheck(ctx, base + "ascending-order(single-root)",
                         lift_bool(z3.ForAll([y], z3.Implies(z3.Select(self.Yg, y), self.rt.oid.lt(y, o)))))
@@ -251,18 +255,16 @@ class WalkUnit(ApiUnit):
         out.append(("delivered-set-is-inside-the-database-and-the-roots",
                     lift_bool(z3.ForAll([x], z3.Implies(z3.Select(self.Yg, x), z3.And(ag.indb(x), self.in_roots(x)))))))
         out.append(("program-set-yielded-equals-the-delivered-set", lift_bool(arr == self.Yg)))
-        if self.n == 1 and entries:
+        if self.n == 1 and entries and self.prop == "C01":
             out.append(("single-root:nothing-delivered-beyond-the-last-oid",
                         lift_bool(z3.ForAll([x], z3.Implies(z3.Select(self.Yg, x), z3.Or(lt(x, entries[0][1].e), x == entries[0][1].e))))))
         if when == "entry" or when == "preserve":
             # establishment / preservation are where the recorded walk defects show up
-            named = []
-            ks = self.known_now() or []
-            ks = [(fid, k) for fid, k in ks if fid in interp.ctx.open_findings and k is not False]
-            self._pending_known = ks
+            self._pending_known = self.known_now()
         return out
 
     def havoc(self, interp, frame):
+        """An arbitrary state satisfying the invariant: every local the loop reads is (re)set here."""
         ctx, rt = interp.ctx, self.rt
         walkrow = get_cls(rt, interp, "puresnmp.util:WalkRow")
         self.in_loop = True
@@ -272,11 +274,12 @@ class WalkUnit(ApiUnit):
         frame.locals["yielded"] = ASet(Y0)
         un = []
         for i, r in enumerate(self.sorted_roots):
-            if ctx.branch(ctx.fresh_bool("root%d_active" % i)):
+            if i in self.active:
                 last = ctx.fresh_oid("last_r%d" % i)
                 lval = self.xv.fresh(ctx, "last_val_r%d" % i)
                 un.append((r, Obj(walkrow, {"value": varbind(rt, interp, last, lval), "unfinished": True})))
         frame.locals["unfinished_oids"] = un
+        frame.locals["fetcher"] = self.real_fetcher      # as resolved by the first statements of multiwalk
         for name in ("varbinds", "grouped_oids", "next_fetches", "continued_from", "stalled"):
             frame.locals.pop(name, None)
 
@@ -300,6 +303,7 @@ class WalkUnit(ApiUnit):
                 if i != j:
                     ctx.assume(Not(oidt.below_sym(interp, self.sorted_roots[i], self.sorted_roots[j])))
         self.roots = self.sorted_roots
+        ctx.mark_base()
         oids = [self.sorted_roots[p] for p in self.perm]
         seam = SendSeam(self, self.respond)
         seam.install(rt, interp)
@@ -307,16 +311,22 @@ class WalkUnit(ApiUnit):
         kwargs = {}
         if self.bulk:
             mk = get_func(rt, interp, "puresnmp.api.raw:Client._bulkwalk_fetcher")
-            kwargs["fetcher"] = interp.call(BoundMethod(mk, client), [self.bulk], {})
+            self.real_fetcher = interp.call(BoundMethod(mk, client), [self.bulk], {})
+            kwargs["fetcher"] = self.real_fetcher
+        else:
+            self.real_fetcher = BoundMethod(get_func(rt, interp, "puresnmp.api.raw:Client.multigetnext"), client)
+        if self.phase == "step":
+            # the statements before the loop are not what this unit verifies: an empty first answer takes one
+            # path to the loop head, where the state is replaced by an arbitrary invariant state (havoc)
+            from pyvc.objects import Builtin
+            kwargs["fetcher"] = Builtin("stub-first-answer", lambda i, a, k: [])
         # multiwalk's own ensures at each exit, via a patched check that knows the findings' patterns
         orig_check = ctx.check
 
         def check(name, cond, known=None, finding=None, **kw):
-            if known is None and ("/invariant-established:" in name or "/invariant-preserved:" in name):
-                ks = getattr(self, "_pending_known", [])
-                if ks:
-                    known = Or(*[k for _, k in ks])
-                    finding = ks[0][0] if len(ks) == 1 else "+".join(f for f, _ in ks)
+            if known is None and ("/invariant-established:" in name or "/invariant-preserved:" in name) and any(
+                    name.endswith(x) for x in self.LOSS_OBLIGATIONS):
+                known = getattr(self, "_pending_known", None) or None
             return orig_check(name, cond, known=known, finding=finding, **kw)
         ctx.check = check
         exc = None
@@ -341,12 +351,28 @@ def perms(n, tier):
     return list(itertools.permutations(range(n)))
 
 
+def subsets(n):
+    out = []
+    for mask in range(0, 2 ** n):
+        out.append(tuple(i for i in range(n) if mask & (1 << i)))
+    return out
+
+
+def walk_units(prop, n, m):
+    us = []
+    for p in perms(n, None):
+        us.append(WalkUnit(n, p, m, prop, "prologue"))
+    # the loop step does not depend on the listing order (the unfinished list is sorted by root)
+    for act in subsets(n):
+        us.append(WalkUnit(n, tuple(range(n)), m, prop, "step", act))
+    return us
+
+
 def units_c01(tier):
     us = []
     nmax = 3 if tier == "thorough" else 2
     for n in range(1, nmax + 1):
-        for p in perms(n, tier):
-            us.append(WalkUnit(n, p, None, "C01"))
+        us.extend(walk_units("C01", n, None))
     return us
 
 
@@ -356,6 +382,5 @@ def units_c02(tier):
     if tier == "thorough":
         shapes += [(1, 3), (2, 3), (3, 1), (3, 2)]
     for n, m in shapes:
-        for p in perms(n, tier):
-            us.append(WalkUnit(n, p, m, "C02"))
+        us.extend(walk_units("C02", n, m))
     return us
